@@ -36,6 +36,12 @@ class ConclusionSelector(LogicalOperator, ABC):
             self._conclusion_.update(conclusions)
             self.concluded_before[not self._is_false_].add(required_output)
 
+    @property
+    def _can_answer_from_cache_(self) -> bool:
+        # Which conclusion applies is decided by evaluating the branches, an output stored by a previous evaluation
+        # does not carry its conclusion.
+        return False
+
     def _reset_only_my_cache_(self) -> None:
         super()._reset_only_my_cache_()
         # which conclusions were already drawn belongs to one evaluation, like the de-duplication state
@@ -105,7 +111,7 @@ class ExceptIf(ConclusionSelector):
                         yield left_value
                 continue
 
-            if is_caching_enabled() and self.right_cache.check(left_value):
+            if self._can_answer_from_cache_ and self.right_cache.check(left_value):
                 yield from self.yield_final_output_from_cache(left_value, self.right_cache)
                 continue
 
